@@ -104,7 +104,7 @@ def cases(ctx):
             yield {'kind': 'history', 'writes': [total // 3, total - total // 3], 'fin': 'close', 'content': 'filly'}
         i += 1
     # seeded long histories
-    n_hist = 400 if ctx.tier == 'quick' else 6000
+    n_hist = 400 if ctx.tier == 'quick' else 200000
     rng = ctx.rng('hist')
     for j in range(n_hist // ctx.nshards + 1):
         k = rng.randint(1, 12)
